@@ -196,8 +196,9 @@ func (m *Manager) socket(namespace string, config *ClientSocketConfig) *clientSo
 
 	socket, ok := m.sockets.get(namespace)
 	if !ok {
-		socket = newClientSocket(config, m, namespace, m.parser)
-		m.sockets.set(socket)
+		// Another goroutine may be creating the socket of this namespace at the same time:
+		// only one of the two is kept, and both callers get that one.
+		socket = m.sockets.setIfAbsent(newClientSocket(config, m, namespace, m.parser))
 	}
 	return socket
 }
